@@ -1016,8 +1016,148 @@ func handoffCase(c conf, st *stats) string {
 	return fmt.Sprintf("ctor=ok rounds=%d early=%d cstart=%d hangs=%d badround=%d", done, early, cstart, hangs, badRound)
 }
 
+// idleSubCase (C10): "submit aimed at an idle-timer expiry while all other workers are busy".
+// initGo < coreGo, short maxIdleTime; the initGo permanent workers are blocked in long tasks, so every
+// further task is served by an on-demand worker that carries an idle timer after each task.  `iters`
+// times: Submit a task, wait (patience) for it to run, then spin until idle + jitter after its completion
+// and submit the next one — right around the expiry of that worker's idle timer.  A task that has not
+// run within the patience is not an error (the unmodified pool sometimes leaves it queued behind the
+// blocked workers): ShutdownNow is called, the blocked tasks are released, the pool is left to come to
+// rest (totalGo = 0, generous limit) and the exactly-once accounting is taken over all tasks of that pool:
+// every accepted task ran or was handed back, exactly once.  `lost` / `dup` count the tasks violating it;
+// `stuck` = pools whose workers never came to rest after ShutdownNow.
+func idleSubCase(c conf, st *stats) string {
+	iters := c.i("iters", 500)
+	idle := time.Duration(c.i("idle", 300000))
+	jlo, jhi := c.i("jlo", -60), c.i("jhi", 200) // µs around the expiry
+	patience := time.Duration(c.i("patience", 100)) * time.Millisecond
+	r := vlib.NewRng(uint64(c.i("seed", 1)))
+	parked, lost, dup, stuck, badIt, done := 0, 0, 0, 0, -1, 0
+
+	var e *env
+	setup := func() string {
+		p, err := mkPool(c)
+		if err != nil || p == nil {
+			return "ctor=" + pool.VerifErrKind(err)
+		}
+		e = newEnv(p)
+		atomic.StoreInt32(&e.started, 1)
+		if err := p.Start(); err != nil {
+			return "start=" + pool.VerifErrKind(err)
+		}
+		nb := c.i("init", 1)
+		var startedBusy int32
+		for i := 0; i < nb; i++ {
+			t := e.newTask("ext")
+			t.body = func() {
+				atomic.AddInt32(&startedBusy, 1)
+				<-e.relAll
+			}
+			t.sub = pool.VerifErrKind(p.Submit(context.Background(), t))
+		}
+		t0 := time.Now()
+		for int(atomic.LoadInt32(&startedBusy)) < nb && time.Since(t0) < 2*time.Second {
+			time.Sleep(20 * time.Microsecond)
+		}
+		return ""
+	}
+	// ShutdownNow, release, come to rest, account
+	teardown := func(it int) {
+		ts, err := e.p.ShutdownNow()
+		if err == nil {
+			runMarked(ts)
+		}
+		e.releaseAll()
+		rest := false
+		t0 := time.Now()
+		for time.Since(t0) < 3*time.Second {
+			s := poolState(e.p)
+			if s.goCnt == 0 {
+				rest = true
+				break
+			}
+			time.Sleep(200 * time.Microsecond)
+		}
+		if !poolState(e.p).wb {
+			time.Sleep(300 * time.Millisecond) // black-box: no worker count after the cancel, just wait
+		}
+		bad := false
+		for _, t := range e.tasks {
+			if t.sub != "ok" {
+				continue
+			}
+			n := int(atomic.LoadInt32(&t.runs)) + int(atomic.LoadInt32(&t.marked))
+			if n == 0 {
+				lost++
+				bad = true
+			} else if n > 1 {
+				dup++
+				bad = true
+			}
+		}
+		if !rest {
+			stuck++
+		}
+		if bad && badIt < 0 {
+			badIt = it
+		}
+		st.Tasks += len(e.tasks)
+	}
+
+	if msg := setup(); msg != "" {
+		return msg
+	}
+	for it := 0; it < iters && badIt < 0; it++ {
+		done++
+		t := e.newTask("ret")
+		t.sub = pool.VerifErrKind(e.p.Submit(context.Background(), t))
+		if t.sub != "ok" {
+			return "submit=" + t.sub
+		}
+		ran := false
+		t0 := time.Now()
+		for time.Since(t0) < patience {
+			if atomic.LoadInt64(&t.fin) != 0 {
+				ran = true
+				break
+			}
+			if time.Since(t0) > 200*time.Microsecond {
+				time.Sleep(20 * time.Microsecond)
+			}
+		}
+		if !ran {
+			parked++
+			teardown(it)
+			if badIt >= 0 {
+				break
+			}
+			if msg := setup(); msg != "" {
+				return msg
+			}
+			continue
+		}
+		target := time.Now().Add(idle + time.Duration(r.Range(jlo, jhi))*time.Microsecond)
+		for time.Now().Before(target) {
+		}
+	}
+	if badIt < 0 {
+		teardown(done)
+	}
+	return fmt.Sprintf("ctor=ok iters=%d parked=%d lost=%d dup=%d stuck=%d badit=%d", done, parked, lost, dup, stuck, badIt)
+}
+
 // ---------------------------------------------------------------------------------------------
 // run
+
+// directedFailed: a directed scenario line that stopped at a violating round / iteration
+func directedFailed(res string) bool {
+	for _, k := range []string{"badrep=", "badround=", "badit="} {
+		if i := strings.Index(res, k); i >= 0 && !strings.HasPrefix(res[i+len(k):], "-1") {
+			return true
+		}
+	}
+	return false
+}
 
 // hangBudget: once this many seq/conc scenarios have hung (each costs seconds), the remaining cases are
 // not executed ("skipped"): a tree on which Shutdown hangs systematically is reported from the first
@@ -1085,6 +1225,19 @@ func run(ops []string, out *vlib.Out, st *stats) {
 					res = pn
 				}
 				out.Line("%s => %s", line, res)
+				if directedFailed(res) {
+					skipping = true // a self-evident violation was found: do not spend time on the rest
+				}
+			case "idlesub":
+				var res string
+				pn := vlib.Catch(func() { res = idleSubCase(c, st) })
+				if pn != "" {
+					res = pn
+				}
+				out.Line("%s => %s", line, res)
+				if directedFailed(res) {
+					skipping = true // a self-evident violation was found: do not spend time on the rest
+				}
 			case "handoff":
 				var res string
 				pn := vlib.Catch(func() { res = handoffCase(c, st) })
@@ -1092,6 +1245,9 @@ func run(ops []string, out *vlib.Out, st *stats) {
 					res = pn
 				}
 				out.Line("%s => %s", line, res)
+				if directedFailed(res) {
+					skipping = true // a self-evident violation was found: do not spend time on the rest
+				}
 			default:
 				out.Line("%s => bad-kind", line)
 			}
